@@ -53,6 +53,18 @@ Definition rune_len (r : N) : N :=
 
 Definition u16len (r : N) : N := if 65536 <=? r then 2 else 1.
 
+(* length of a byte string in UTF-16 code units (an invalid byte counts as one unit) *)
+Fixpoint u16_units_n (s : list N) (skip : nat) : N :=
+  match s with
+  | [] => 0
+  | _ :: r =>
+      match skip with
+      | S k => u16_units_n r k
+      | O => let '(rn, n) := decode s in u16len rn + u16_units_n r (n - 1)
+      end
+  end.
+Definition u16n (s : list N) : N := u16_units_n s 0.
+
 (* well-formed UTF-8, by the same decoder: no step yields the error rune from a bad sequence *)
 Fixpoint valid_utf8_fuel (fuel : nat) (s : list N) : bool :=
   match s with
